@@ -107,6 +107,15 @@ def check(run):
                 for qi in range(nq):
                     aq = world.rand_query(rng, rng.randrange(0, 3), ops=NOFUZZY) if rng.random() < 0.7 \
                         else range_compound(rng)
+                    if qi % 6 in (0, 1) and rng.random() < 0.5:
+                        # "the documents without a value in field f" next to a positive clause (and the other forms in
+                        # which a fielded Every stands where it must not be taken for "everything")
+                        ev = {"op": "every", "f": rng.choice(world.TEXT_FIELDS + ("num",)), "b4": 4}
+                        x = world.rand_query(rng, rng.randrange(0, 2), ops=NOFUZZY) if rng.random() < 0.5 \
+                            else {"op": "every", "f": "", "b4": 4}
+                        aq = rng.choice([{"op": "andnot", "a": x, "b": ev}, {"op": "andnot", "a": x, "b": ev},
+                                         {"op": "and", "kids": [x, {"op": "not", "q": ev}], "b4": 4},
+                                         {"op": "andmaybe", "a": x, "b": ev}, {"op": "require", "a": x, "b": ev}])
                     if qi % 6 == 5:
                         aq = world.rand_span_query(rng, rng.randrange(1, 3))      # positional (span) queries
                     elif qi % 6 == 4:
